@@ -15,9 +15,10 @@ PROPERTY = "C14"
 LEVEL = "exploration"
 RULE = (
     "Programs: a stack of 0-4 entries, each {async CM, sync CM (entered through enter_context), pushed async "
-    "exit callable, pushed sync exit callable, pushed CM object, async callback with args, sync callback with "
+    "exit callable, pushed sync exit callable, pushed async / sync CM object, async callback with args, sync callback with "
     "args} x behaviour {falsy, truthy, raise new, raise new only while handling, re-raise the received "
-    "exception, raise a new BaseException that is not an Exception, enter fails (CMs)} x block outcome {normal, raises}; the space for <= 2 entries is enumerated "
+    "exception, raise a new BaseException that is not an Exception, raise a new exception that already has a "
+    "context chain, enter fails (CMs)} x block outcome {normal, raises}; the space for <= 2 entries is enumerated "
     "completely (every tier), 3-4 entries are sampled by Hypothesis. Reference: the same entries written as "
     "genuinely nested async-with / with statements (callables and callbacks wrapped in a trivial manager). "
     "Compared: the ordered log of (entry, which exception object it received), enters, callback arguments, and "
@@ -33,8 +34,8 @@ ASSUMPTIONS = [
     "exits never raise an exception that is already part of the in-flight exception's context chain",
 ]
 
-KINDS = ["acm", "scm", "push-async", "push-sync", "push-cm", "callback-async", "callback-sync"]
-BEHAVIOURS = ["falsy", "truthy", "raise", "raise-if-exc", "reraise", "raise-base"]
+KINDS = ["acm", "scm", "push-async", "push-sync", "push-cm", "push-scm", "callback-async", "callback-sync"]
+BEHAVIOURS = ["falsy", "truthy", "raise", "raise-if-exc", "reraise", "raise-base", "raise-chained"]
 
 
 class New(Exception):
@@ -69,6 +70,15 @@ def behave(i, behaviour, received):
         raise New(i)
     if behaviour == "raise-base":
         raise NewBase(i)
+    if behaviour == "raise-chained":
+        # a new exception that already carries a context chain of its own
+        try:
+            try:
+                raise KeyError(("inner", i))
+            except KeyError:
+                raise LookupError(("middle", i))
+        except LookupError:
+            raise New(i)
     if behaviour == "reraise" and received is not None:
         raise received
     return False
@@ -156,6 +166,9 @@ def entry_objects(i, kind, behaviour, log, block_ref):
         cm = ACM()
         # pushed, not entered: only its exit is used
         return ("push", cm), ("async", WrapExit(cm.__aexit__, True))
+    if kind == "push-scm":
+        cm = SCM()
+        return ("push", cm), ("async", WrapExit(cm.__exit__, False))
     if kind == "push-async":
         return ("push", aexit), ("async", WrapExit(aexit, True))
     if kind == "push-sync":
@@ -340,7 +353,8 @@ def check_history(case):
                 note()
                 return behave(eid, behaviour, None)
 
-            return {"acm": ACM(), "scm": SCM(), "push-cm": ACM(), "push-async": aexit, "push-sync": sexit,
+            return {"acm": ACM(), "scm": SCM(), "push-cm": ACM(), "push-scm": SCM(), "push-async": aexit,
+                    "push-sync": sexit,
                     "callback-async": acb, "callback-sync": scb}[kind]
 
         running_on = [None]
